@@ -72,6 +72,11 @@ def main() -> None:
     d = section(d, r"^### C16 — determinism.*$", r"^### C17 ", parts["C16"])
     d = section(d, r"^### C17 — code generator.*$", r"^### C18 ", parts["C17"])
     d = section(d, r"^### C19 — Python-defined machines.*$", r"^### C20 ", parts["C19"])
+    add = json.load(open(os.path.join(ROOT, "tools", "sec4_addenda.json")))
+    for pid, text in add.items():
+        m = re.search(rf"^### {pid} .*?(?=^### C\d\d |^## 5\. )", d, re.M | re.S)
+        assert m, pid
+        d = d[: m.end()] + text + "\n\n" + d[m.end():]
     d = section(d, r"^## 6\. Violations already reproduced.*$", r"^## 7\. ",
                 "## 6. Violations reproduced at design time - all triaged\n\nEvery entry of the design-round list was confirmed by a check and "
                 "either repaired (0A.5) or, for `_snake_to_camel`'s `str.title()` quirk, recognised as permitted by the statement "
